@@ -1,35 +1,78 @@
 (* C18 — exported theorems only: each is closed by [exact] and followed by Print Assumptions. *)
 From Coq Require Import String List ZArith Bool.
 From Verif Require Import C18.Model C18.Spec C18.Proofs_Vec C18.Proofs_Pass C18.Proofs_Round C18.Proofs_Gate
-  C18.Proofs_Check C18.Proofs_Stop.
+  C18.Proofs_Steps C18.Proofs_Multi C18.Proofs_Check C18.Proofs_Stop.
 Import ListNotations.
 Open Scope Z_scope.
 
-(* MAIN: for every configuration, node set and finite history of Balance rounds (pod names
-   unique on a node, reported usages not negative), the Evict calls of the model satisfy the property in every round:
-   each call is on a node classified high / prod-high whose running estimate is above the
-   high threshold at that moment, a low node exists for the pass, all headroom dimensions are
-   still positive, the pod is one of the node's pods, passes the filters and (NodeFit) reports
-   usage that fits under the high threshold of some target; nothing is
-   evicted in dry-run mode or when no node is overloaded / none is underused / all are; and with
-   anomaly gating a node is evicted from only after K earlier source rounds. *)
-(* [fx] selects the code variant: false = without, true = with the repair of finding
-   C18-anomaly-not-consecutive ([Model.reset_on_normal] says which one /repo contains) *)
-Theorem c18_main : forall fx c ns rounds,
-  wf_rounds rounds = true -> C18_holds c ns rounds (map fst (run_gen fx c ns rounds ([], []))).
-Proof. exact main_holds_gen. Qed.
+(* The model: a plugin instance with a LIST of node pools [bc], a node set [ns] and a finite
+   history [rounds] of Balance calls. [fx] / [fxp] select the code variant: [fx] = with the repair
+   of finding C18-anomaly-not-consecutive (in /repo since a46910e), [fxp] = with the repair of
+   finding C18-processed-nodes ([Model.reset_on_normal], [Model.processed_repaired] say what /repo
+   contains). [tables] are the pools (configuration, node ids, usage / threshold table) of every
+   round; [observed] the Evict calls of every round.
+
+   C18_holds strict: in every round the calls split into one segment per pool, in pool order, and
+   in its segment each call is on a node classified high / prod-high by that pool whose running
+   estimate — counting what this pool AND the earlier pools of the same Balance call have already
+   evicted from it — is above the high threshold at that moment, a low node exists for the pass,
+   all headroom dimensions are still positive, the pod is one of the node's pods, passes the
+   filters and (NodeFit) reports usage that fits under the high threshold of some target; nothing
+   is evicted in dry-run mode or by a pool in which no node is overloaded / none is underused /
+   all are; with anomaly gating a node is evicted from only after K earlier source rounds
+   (strict = true: after K source rounds immediately before this one). *)
+
+(* MAIN 1: pools that no node belongs to twice — every variant of the code. For [fx] = true (what
+   /repo contains) this includes the strict reading of the gate. *)
+Theorem c18_main : forall fx fxp bc ns rounds,
+  wf_rounds rounds = true -> disjoint_pools bc ns = true ->
+  C18_holds fx (tables fx fxp bc ns rounds) (observed (run_gen fx fxp bc ns rounds ([], []))).
+Proof. exact main_disjoint. Qed.
 Print Assumptions c18_main.
 
+(* MAIN 2: ANY list of pools (overlapping selectors, catch-all pools, nil selectors), without the
+   anomaly gate, for the variant with the processedNodes repair *)
+Theorem c18_main_overlap_repaired : forall fx bc ns rounds,
+  wf_rounds rounds = true -> no_gating bc = true ->
+  C18_holds true (tables fx true bc ns rounds) (observed (run_gen fx true bc ns rounds ([], []))).
+Proof. exact main_repaired. Qed.
+Print Assumptions c18_main_overlap_repaired.
+
+(* MAIN 3: ANY list of pools without the anomaly gate, EVERY variant (in particular the code as it
+   is): the property holds for every history in which no pool looks at a node that an earlier pool of
+   the same Balance call has evicted from — re-entry is the only way in which the model can fail
+   (finding C18-processed-nodes shows that it does happen) *)
+Theorem c18_main_overlap_no_reentry : forall fx fxp bc ns rounds,
+  wf_rounds rounds = true -> no_gating bc = true ->
+  run_no_reentry (run_gen fx fxp bc ns rounds ([], [])) ->
+  C18_holds true (tables fx fxp bc ns rounds) (observed (run_gen fx fxp bc ns rounds ([], []))).
+Proof. exact main_noreentry. Qed.
+Print Assumptions c18_main_overlap_no_reentry.
+Theorem c18_no_reentry_test : forall res, run_no_reentryb res = true -> run_no_reentry res.
+Proof. exact run_no_reentryb_ok. Qed.
+Print Assumptions c18_no_reentry_test.
+
 (* the decision procedure run on the implementation's observable decides exactly that Prop *)
-Theorem c18_prop_code_decides : forall c ns rounds obs,
-  prop_code c ns rounds obs = 0 <-> C18_holds c ns rounds obs.
+Theorem c18_prop_code_decides : forall tbls obs, prop_code tbls obs = 0 <-> C18_holds true tbls obs.
 Proof. exact prop_code_iff. Qed.
 Print Assumptions c18_prop_code_decides.
+Theorem c18_hist_ok_decides : forall strict tbls obs, hist_ok strict tbls obs [] = true <-> C18_holds strict tbls obs.
+Proof. exact (fun strict tbls obs => hist_ok_iff strict tbls obs []). Qed.
+Print Assumptions c18_hist_ok_decides.
+Theorem c18_strict_implies_counting : forall tbls obs, C18_holds true tbls obs -> C18_holds false tbls obs.
+Proof. exact (fun tbls obs => hist_holds_weaken tbls obs []). Qed.
+Print Assumptions c18_strict_implies_counting.
 
-Theorem c18_main_code : forall fx c ns rounds,
-  wf_rounds rounds = true -> prop_code c ns rounds (map fst (run_gen fx c ns rounds ([], []))) = 0.
+Theorem c18_main_code : forall fxp bc ns rounds,
+  wf_rounds rounds = true -> disjoint_pools bc ns = true ->
+  prop_code (tables true fxp bc ns rounds) (observed (run_gen true fxp bc ns rounds ([], []))) = 0.
 Proof. exact main_prop_code. Qed.
 Print Assumptions c18_main_code.
+Theorem c18_main_code_repaired : forall fx bc ns rounds,
+  wf_rounds rounds = true -> no_gating bc = true ->
+  prop_code (tables fx true bc ns rounds) (observed (run_gen fx true bc ns rounds ([], []))) = 0.
+Proof. exact main_prop_code_repaired. Qed.
+Print Assumptions c18_main_code_repaired.
 
 (* c18_source_overloaded / c18_needs_target / c18_filters, for ANY accepted sequence of Evict
    calls (model's or implementation's): the state [stm] reached by replaying the calls before
@@ -45,6 +88,14 @@ Theorem c18_every_eviction : forall c tbl prod st evs st',
     find_pod pv (r_pods prod r) = Some p /\ pfilt_ok p = true /\ fit_ok c prod tbl p = true.
 Proof. exact valid_pass_event. Qed.
 Print Assumptions c18_every_eviction.
+
+(* every pool of an accepted round has its segment: a valid round of that pool, started from the
+   estimates the earlier pools left behind *)
+Theorem c18_every_pool : forall strict pts cum hist evs,
+  pools_hold strict pts cum hist evs ->
+  forall pt, In pt pts -> exists cum' seg, incl seg evs /\ seg_holds strict pt cum' hist seg.
+Proof. exact pools_hold_seg. Qed.
+Print Assumptions c18_every_pool.
 
 (* c18_stop: evictPods returns without a further call at the first moment the node is back
    under its high threshold or some headroom is used up ... *)
@@ -66,8 +117,17 @@ Theorem c18_stop_forever : forall c tbl prod,
 Proof. exact stop_forever. Qed.
 Print Assumptions c18_stop_forever.
 
+(* ... nor, in the variant with the processedNodes repair, any call of a LATER pool of the same
+   Balance call: no later pool looks at a node that has been evicted from ([E]: the nodes evicted
+   from so far; [processed]: processedNodes) *)
+Theorem c18_no_reentry_repaired : forall fx ns rs,
+  wf_round rs = true -> forall bc processed ds E,
+  incl E processed -> no_reentry (fst (pools_run fx true bc ns rs processed ds)) E.
+Proof. exact no_reentry_repaired. Qed.
+Print Assumptions c18_no_reentry_repaired.
+
 (* the hypotheses of c18_stop_forever hold for the tables and initial states of the model *)
-Theorem c18_table_dims : forall c ns rs, tbl_dims (dims c) (table c ns rs).
+Theorem c18_table_dims : forall c pool, tbl_dims (dims c) (table_of c pool).
 Proof. exact table_dims. Qed.
 Print Assumptions c18_table_dims.
 Theorem c18_init_state_dims : forall d tbl prod avail,
@@ -75,128 +135,221 @@ Theorem c18_init_state_dims : forall d tbl prod avail,
 Proof. exact init_state_dims. Qed.
 Print Assumptions c18_init_state_dims.
 
-Theorem c18_table_wf : forall c ns rs, wf_round rs = true -> tbl_wf c (table c ns rs).
+Theorem c18_table_wf : forall fxp c processed ns rs,
+  wf_round rs = true -> tbl_wf c (table_of c (pool_nodes fxp c processed ns rs)).
 Proof. exact table_wf. Qed.
 Print Assumptions c18_table_wf.
 
-(* c18_nothing_when *)
-Theorem c18_nothing_when : forall fx c ns rs ds,
-  wf_round rs = true ->
-  nothing_cond (table c ns rs) (pool_size c ns rs) = true -> fst (balance_gen fx c ns rs ds) = [].
+(* with pairwise disjoint pools no node is looked at by two pools of a Balance call *)
+Theorem c18_round_disjoint : forall fx fxp bc ns rs ds,
+  wf_round rs = true -> disjoint_pools bc ns = true ->
+  round_wf (steps_of (map fst (fst (balance_gen fx fxp bc ns rs ds)))).
+Proof. exact balance_round_wf. Qed.
+Print Assumptions c18_round_disjoint.
+
+(* c18_nothing_when, per pool of a Balance call *)
+Theorem c18_nothing_when : forall fx fxp bc ns rs ds q,
+  wf_round rs = true -> In q (fst (balance_gen fx fxp bc ns rs ds)) ->
+  nothing_cond (pt_tbl (fst q)) (pt_size (fst q)) = true -> snd q = [].
 Proof. exact nothing_when. Qed.
 Print Assumptions c18_nothing_when.
 
-Theorem c18_dry_run_silent : forall fx c ns rs ds,
-  wf_round rs = true -> cdry c = true -> fst (balance_gen fx c ns rs ds) = [].
+Theorem c18_dry_run_silent : forall fx fxp bc ns rs ds,
+  wf_round rs = true -> (forall c, In c bc -> cdry c = true) ->
+  evs_of (fst (balance_gen fx fxp bc ns rs ds)) = [].
 Proof. exact dry_run_silent. Qed.
 Print Assumptions c18_dry_run_silent.
 
-(* c18_anomaly_gate, multi-round: the detector invariant (counter <= mu, anomaly state only
-   after more than K) is carried through one Balance round from ANY cache state satisfying the
-   round's precondition, for any measure mu of "rounds as a source" that is non-negative and
-   grows by one in a source round *)
-Theorem c18_detector_round : forall c mu,
+(* c18_anomaly_gate, one pool step: the detector invariant (counter <= mu, anomaly state only
+   after more than K) is carried through processOneNodePool from ANY cache state satisfying the
+   step's precondition, for any measure mu of "steps as a source" that is non-negative and
+   grows by one in a source step; [kof x] = the ConsecutiveAbnormalities the detector of node x
+   was created with *)
+Theorem c18_detector_step : forall c kof mu,
   (forall prod x h, 0 <= mu prod x h) ->
-  (forall prod x t h, was_src prod x t = true -> mu prod x (t :: h) = 1 + mu prod x h) ->
-  forall tbl psize ds h,
-  tbl_wf c tbl -> pre_inv c mu tbl h ds ->
-  dstate_inv c mu (tbl :: h) (snd (process_pool c tbl psize ds)) /\
+  (forall prod x (t : stepT) h, was_src prod x (snd t) = true -> mu prod x (t :: h) = 1 + mu prod x h) ->
+  forall ids tbl psize ds h,
+  tbl_wf c tbl -> (forall r, In r tbl -> kof (rid r) = cK c) -> pre_inv kof mu ids tbl h ds ->
+  dstate_inv kof mu ((ids, tbl) :: h) (snd (process_pool c tbl psize ds)) /\
   gate_mu c mu h tbl (fst (process_pool c tbl psize ds)).
 Proof. exact process_pool_gate. Qed.
-Print Assumptions c18_detector_round.
+Print Assumptions c18_detector_step.
 
-(* both variants: in the i-th round of any history, with ConsecutiveAbnormalities = K <> 1, every
-   Evict call is on a node that is a source in round i and was one (of the same kind) in at
-   least K of the rounds 0..i-1 *)
-Theorem c18_anomaly_gate_counting : forall fx c ns rounds i tbl ps evs,
-  wf_rounds rounds = true ->
-  nth_error (tables c ns rounds) i = Some (tbl, ps) ->
-  nth_error (map fst (run_gen fx c ns rounds ([], []))) i = Some evs ->
-  round_holds c tbl ps evs /\
-  gate_holds c (rev (map fst (firstn i (tables c ns rounds))) ++ []) tbl evs.
+(* per-round view: in the i-th round of any history over disjoint pools the calls split over the
+   pools of that round, each segment satisfying the property of its pool with the gate judged
+   against rounds 0..i-1 *)
+Theorem c18_round_view : forall fx fxp bc ns rounds i pts evs,
+  wf_rounds rounds = true -> disjoint_pools bc ns = true ->
+  nth_error (tables fx fxp bc ns rounds) i = Some pts ->
+  nth_error (observed (run_gen fx fxp bc ns rounds ([], []))) i = Some evs ->
+  pools_hold fx pts [] (rev (map steps_of (firstn i (tables fx fxp bc ns rounds))) ++ []) evs.
 Proof.
-  exact (fun fx c ns rounds i tbl ps evs H => hist_holds_nth c _ _ [] i tbl ps evs (main_holds_gen fx c ns rounds H)).
+  exact (fun fx fxp bc ns rounds i pts evs H1 H2 =>
+           hist_holds_nth fx _ _ [] i pts evs (main_disjoint fx fxp bc ns rounds H1 H2)).
 Qed.
-Print Assumptions c18_anomaly_gate_counting.
+Print Assumptions c18_round_view.
 
-(* FULL STRENGTH, repaired variant: ... and was one in each of the K rounds i-K..i-1
-   (strict_gate_holds: K <= length of the run of source rounds that ends at round i-1) *)
-Theorem c18_anomaly_gate : forall c ns rounds i tbl ps evs,
-  wf_rounds rounds = true ->
-  nth_error (tables c ns rounds) i = Some (tbl, ps) ->
-  nth_error (map fst (run_gen true c ns rounds ([], []))) i = Some evs ->
-  strict_gate_holds c (rev (map fst (firstn i (tables c ns rounds))) ++ []) tbl evs.
-Proof.
-  exact (fun c ns rounds i tbl ps evs H => strict_hist_nth c _ _ [] i tbl ps evs (strict_holds_fixed c ns rounds H)).
-Qed.
+(* FULL STRENGTH of the anomaly gate, variant with the anomaly repair, disjoint pools: in round i a
+   node is evicted from only if it was a source in each of the K rounds i-K..i-1 — this is the
+   [strict = true] part of c18_main; spelled out for one segment: *)
+Theorem c18_anomaly_gate : forall pt cum hist seg,
+  seg_holds true pt cum hist seg -> strict_gate_holds (pt_cfg pt) hist (pt_tbl pt) seg.
+Proof. exact (fun pt cum hist seg H => proj2 (proj2 H) eq_refl). Qed.
 Print Assumptions c18_anomaly_gate.
 
-Theorem c18_strict_code_fixed : forall c ns rounds,
-  wf_rounds rounds = true -> strict_code c ns rounds (map fst (run_gen true c ns rounds ([], []))) = 0.
-Proof. exact main_strict_code_fixed. Qed.
-Print Assumptions c18_strict_code_fixed.
+(* ------------------------------------------------------------------------------------------ *)
+(* Witnesses. Two nodes with label "a", 1000 bytes of memory each; only memory is looked at. *)
+Definition none4 : thr4 := mkThr4 (-1) (-1) (-1) (-1).
+Definition ex_nodes : list nstat := [mkNstat 4000 1000 10 1 0 0 0 0; mkNstat 4000 1000 10 1 0 0 0 0].
 
-(* WITHOUT the repair the detector counts source rounds, it does not require them to be
-   consecutive: the strict reading of the gate is refuted by the faithful model of the
-   unrepaired code (finding C18-anomaly-not-consecutive) *)
+(* WITHOUT the anomaly repair the detector counts source rounds, it does not require them to be
+   consecutive: the strict reading of the gate is refuted by the model of the unrepaired code
+   (finding C18-anomaly-not-consecutive, repaired in /repo by a46910e) *)
 Definition ex_cfg : cfg :=
-  mkCfg 0 false false false false true 2 1
-        [mkThr4 (-1) (-1) (-1) (-1); mkThr4 30 60 (-1) (-1); mkThr4 (-1) (-1) (-1) (-1)] [0; 1; 0].
-Definition ex_nodes : list nstat := [mkNstat 4000 1000 10 true; mkNstat 4000 1000 10 true].
+  mkCfg 0 false false 0 false true 2 1 [none4; mkThr4 30 60 (-1) (-1); none4] [0; 1; 0].
 Definition ex_round (mem : Z) : list nround :=
-  [mkNround false 1 0 0 [mkPod 1 0 5000 true 100 mem 3 true]; mkNround false 1 0 100 []].
+  [mkNround false 1 0 0 [mkPod 1 0 5000 true 100 mem 3 true] []; mkNround false 1 0 100 [] []].
 (* node 1 at 80 %, 80 %, 50 % (between the thresholds), 80 % of memory; node 2 at 10 % *)
 Definition ex_rounds : list (list nround) := [ex_round 800; ex_round 800; ex_round 500; ex_round 800].
 
 Theorem c18_gate_consecutive_refuted :
-  exists c ns rounds,
-    wf_rounds rounds = true /\
-    map fst (run_gen false c ns rounds ([], [])) = [[]; []; []; [(1, (0, 1))]] /\
-    strict_code c ns rounds (map fst (run_gen false c ns rounds ([], []))) = 7 /\
-    map fst (run_gen true c ns rounds ([], [])) = [[]; []; []; []].
-Proof. exists ex_cfg, ex_nodes, ex_rounds. vm_compute. repeat split. Qed.
+  exists bc ns rounds,
+    wf_rounds rounds = true /\ disjoint_pools bc ns = true /\
+    observed (run_gen false false bc ns rounds ([], [])) = [[]; []; []; [(1, (0, 1))]] /\
+    prop_code (tables false false bc ns rounds) (observed (run_gen false false bc ns rounds ([], []))) = 7 /\
+    observed (run_gen true false bc ns rounds ([], [])) = [[]; []; []; []].
+Proof. exists [ex_cfg], ex_nodes, ex_rounds. vm_compute. repeat split. Qed.
 Print Assumptions c18_gate_consecutive_refuted.
 
+(* node 1: eight pods of 100 bytes (80 %), node 2: one pod (10 %); [prio0] = 9000: prod pods on node 1 *)
+Definition ex_hot_cold (prio0 : Z) : list nround :=
+  [mkNround false 1 0 0 (map (fun i => mkPod i 0 (prio0 + i) true 0 100 3 true) [1; 2; 3; 4; 5; 6; 7; 8]) [];
+   mkNround false 1 0 0 [mkPod 9 0 5000 true 0 100 3 true] []].
+(* memory low 30 % high 50 % *)
+Definition ex_pool (sel : Z) (anom : bool) (K : Z) : cfg :=
+  mkCfg 0 false false sel false anom K 1 [none4; mkThr4 30 50 (-1) (-1); none4] [0; 1; 0].
+(* memory low 90 % high 95 %, prod low 20 % prod high 50 % *)
+Definition ex_pool_prod (sel : Z) : cfg :=
+  mkCfg 0 false false sel false false 0 0 [none4; mkThr4 90 95 20 50; none4] [0; 1; 0].
+
+(* FINDING C18-processed-nodes (a): a dedicated pool (matchLabels a) followed by a catch-all pool
+   with a NIL selector. The first pool relieves node 1 down to its high threshold (3 pods); the nil
+   pool ignores processedNodes, sees the stale measured 80 % and evicts 3 more: clause 11. With the
+   repair the catch-all pool leaves node 1 alone. *)
+Theorem c18_reentry_nil_refuted :
+  exists bc ns rounds,
+    wf_rounds rounds = true /\ no_gating bc = true /\
+    observed (run_gen true false bc ns rounds ([], []))
+      = [[(1, (0, 1)); (1, (0, 2)); (1, (0, 3)); (1, (0, 1)); (1, (0, 2)); (1, (0, 3))]] /\
+    prop_code (tables true false bc ns rounds) (observed (run_gen true false bc ns rounds ([], []))) = 11 /\
+    observed (run_gen true true bc ns rounds ([], [])) = [[(1, (0, 1)); (1, (0, 2)); (1, (0, 3))]].
+Proof. exists [ex_pool 2 false 0; ex_pool 0 false 0], ex_nodes, [ex_hot_cold 5000]. vm_compute. repeat split. Qed.
+Print Assumptions c18_reentry_nil_refuted.
+
+(* FINDING C18-processed-nodes (b): only the HIGH source nodes are recorded in processedNodes. A
+   node relieved as a PROD-high source by the first pool is relieved again by a later pool, here a
+   catch-all pool written {} : clause 11 *)
+Theorem c18_reentry_prodhigh_refuted :
+  exists bc ns rounds,
+    wf_rounds rounds = true /\ no_gating bc = true /\
+    observed (run_gen true false bc ns rounds ([], []))
+      = [[(1, (0, 1)); (1, (0, 2)); (1, (0, 3)); (1, (0, 1)); (1, (0, 2)); (1, (0, 3))]] /\
+    prop_code (tables true false bc ns rounds) (observed (run_gen true false bc ns rounds ([], []))) = 11 /\
+    observed (run_gen true true bc ns rounds ([], [])) = [[(1, (0, 1)); (1, (0, 2)); (1, (0, 3))]].
+Proof. exists [ex_pool_prod 2; ex_pool_prod 1], ex_nodes, [ex_hot_cold 9000]. vm_compute. repeat split. Qed.
+Print Assumptions c18_reentry_prodhigh_refuted.
+
+(* FINDING C18-shared-detectors: pools that overlap share one detector per node. With
+   ConsecutiveAbnormalities = 2 in a dedicated pool and in a catch-all pool, node 1 is marked twice
+   in round 1 (the first pool returns before recording it as processed) and is evicted from in
+   round 2, after ONE earlier source round: clause 6. A single pool waits for round 3. *)
+Theorem c18_shared_detector_refuted :
+  exists bc ns rounds,
+    wf_rounds rounds = true /\ disjoint_pools bc ns = false /\
+    observed (run_gen true false bc ns rounds ([], [])) = [[]; [(1, (0, 1)); (1, (0, 2)); (1, (0, 3))]; []] /\
+    prop_code (tables true false bc ns rounds) (observed (run_gen true false bc ns rounds ([], []))) = 6 /\
+    prop_code (tables true true bc ns rounds) (observed (run_gen true true bc ns rounds ([], []))) = 6 /\
+    observed (run_gen true false [ex_pool 2 true 2] ns rounds ([], [])) = [[]; []; [(1, (0, 1)); (1, (0, 2)); (1, (0, 3))]].
+Proof.
+  exists [ex_pool 2 true 2; ex_pool 1 true 2], ex_nodes, [ex_hot_cold 5000; ex_hot_cold 5000; ex_hot_cold 5000].
+  vm_compute. repeat split.
+Qed.
+Print Assumptions c18_shared_detector_refuted.
+
+(* ------------------------------------------------------------------------------------------ *)
 (* non-vacuity: the hypotheses are satisfiable and the model does evict *)
-Example c18_nonvacuous_wf : wf_rounds ex_rounds = true.
-Proof. reflexivity. Qed.
+Example c18_nonvacuous_wf : wf_rounds ex_rounds = true /\ disjoint_pools [ex_cfg] ex_nodes = true.
+Proof. split; reflexivity. Qed.
+Definition ex3 : list (list nround) := [ex_round 800; ex_round 800; ex_round 800].
 Example c18_nonvacuous_evicts :
-  map fst (run_gen false ex_cfg ex_nodes [ex_round 800; ex_round 800; ex_round 800] ([], [])) = [[]; []; [(1, (0, 1))]]
-  /\ map fst (run_gen true ex_cfg ex_nodes [ex_round 800; ex_round 800; ex_round 800] ([], [])) = [[]; []; [(1, (0, 1))]]
-  /\ prop_code ex_cfg ex_nodes [ex_round 800; ex_round 800; ex_round 800] [[]; []; [(1, (0, 1))]] = 0
-  /\ prop_code ex_cfg ex_nodes [ex_round 800; ex_round 800; ex_round 800] [[]; [(1, (0, 1))]; []] = 6
-  /\ prop_code ex_cfg ex_nodes [ex_round 800; ex_round 800; ex_round 800] [[]; []; [(2, (0, 1))]] = 1.
+  observed (run_gen false false [ex_cfg] ex_nodes ex3 ([], [])) = [[]; []; [(1, (0, 1))]]
+  /\ observed (run_gen true false [ex_cfg] ex_nodes ex3 ([], [])) = [[]; []; [(1, (0, 1))]]
+  /\ prop_code (tables true false [ex_cfg] ex_nodes ex3) [[]; []; [(1, (0, 1))]] = 0
+  /\ prop_code (tables true false [ex_cfg] ex_nodes ex3) [[]; [(1, (0, 1))]; []] = 6
+  /\ prop_code (tables true false [ex_cfg] ex_nodes ex3) [[]; []; [(2, (0, 1))]] = 1.
 Proof. vm_compute. repeat split. Qed.
 Example c18_nonvacuous_nothing :
-  nothing_cond (table ex_cfg ex_nodes (ex_round 500)) (pool_size ex_cfg ex_nodes (ex_round 500)) = true.
+  map (fun q => nothing_cond (pt_tbl (fst q)) (pt_size (fst q)))
+      (fst (balance_gen true false [ex_cfg] ex_nodes (ex_round 500) ([], []))) = [true].
 Proof. vm_compute. reflexivity. Qed.
+
+(* two DISJOINT pools (label a / label b), one overloaded and one underused node each; a
+   catch-all pool {} after a dedicated pool, both hypotheses of MAIN 2 *)
+Definition ex_nodes4 : list nstat :=
+  [mkNstat 4000 1000 10 1 0 0 0 0; mkNstat 4000 1000 10 1 0 0 0 0; mkNstat 4000 1000 10 2 0 0 0 0; mkNstat 4000 1000 10 2 0 0 0 0].
+Definition ex_round4 : list nround := ex_hot_cold 5000 ++ ex_hot_cold 5000.
+Example c18_nonvacuous_disjoint :
+  disjoint_pools [ex_pool 2 false 0; ex_pool 3 false 0] ex_nodes4 = true
+  /\ observed (run_gen true false [ex_pool 2 false 0; ex_pool 3 false 0] ex_nodes4 [ex_round4] ([], []))
+     = [[(1, (0, 1)); (1, (0, 2)); (1, (0, 3)); (3, (0, 1)); (3, (0, 2)); (3, (0, 3))]]
+  /\ prop_code (tables true false [ex_pool 2 false 0; ex_pool 3 false 0] ex_nodes4 [ex_round4])
+               [[(1, (0, 1)); (1, (0, 2)); (1, (0, 3)); (3, (0, 1)); (3, (0, 2)); (3, (0, 3))]] = 0
+  (* the calls of the second pool before those of the first: no split in pool order *)
+  /\ prop_code (tables true false [ex_pool 2 false 0; ex_pool 3 false 0] ex_nodes4 [ex_round4])
+               [[(3, (0, 1)); (1, (0, 1))]] <> 0.
+Proof. vm_compute. repeat split. discriminate. Qed.
+Example c18_nonvacuous_overlap :
+  no_gating [ex_pool 2 false 0; ex_pool 1 false 0] = true
+  (* hypothesis of MAIN 3 for the code as it is: holds with a catch-all pool {} , fails with a nil one *)
+  /\ run_no_reentryb (run_gen true false [ex_pool 2 false 0; ex_pool 1 false 0] ex_nodes [ex_hot_cold 5000] ([], [])) = true
+  /\ run_no_reentryb (run_gen true false [ex_pool 2 false 0; ex_pool 0 false 0] ex_nodes [ex_hot_cold 5000] ([], [])) = false
+  /\ disjoint_pools [ex_pool 2 false 0; ex_pool 1 false 0] ex_nodes = false
+  (* {} honours processedNodes: the catch-all pool leaves the relieved node alone, in both variants *)
+  /\ observed (run_gen true false [ex_pool 2 false 0; ex_pool 1 false 0] ex_nodes [ex_hot_cold 5000] ([], []))
+     = [[(1, (0, 1)); (1, (0, 2)); (1, (0, 3))]]
+  /\ prop_code (tables true false [ex_pool 2 false 0; ex_pool 1 false 0] ex_nodes [ex_hot_cold 5000])
+               [[(1, (0, 1)); (1, (0, 2)); (1, (0, 3))]] = 0
+  (* an implementation in which the catch-all pool evicts from the relieved node again *)
+  /\ prop_code (tables true false [ex_pool 2 false 0; ex_pool 1 false 0] ex_nodes [ex_hot_cold 5000])
+               [[(1, (0, 1)); (1, (0, 2)); (1, (0, 3)); (1, (0, 4))]] = 1.
+Proof. vm_compute. repeat split. Qed.
 
 (* NodeFit on: node 1's only pod (80 % of the memory) on top of node 2's 10 % does not fit under
    node 2's 60 % -> nothing is evicted, and the decision procedure rejects an observable that
    does (clause 10); of two 40 % pods only the first fits once its usage is reserved *)
 Definition ex_cfg_fit : cfg :=
-  mkCfg 0 false true false false false 0 0
-        [mkThr4 (-1) (-1) (-1) (-1); mkThr4 30 60 (-1) (-1); mkThr4 (-1) (-1) (-1) (-1)] [0; 1; 0].
+  mkCfg 0 false true 0 false false 0 0 [none4; mkThr4 30 60 (-1) (-1); none4] [0; 1; 0].
 Definition ex_round_fit (other : Z) : list nround :=
-  [mkNround false 1 0 0 [mkPod 1 0 5000 true 100 800 3 true]; mkNround false 1 0 other []].
+  [mkNround false 1 0 0 [mkPod 1 0 5000 true 100 800 3 true] []; mkNround false 1 0 other [] []].
+Definition ex_round_fit2 : list nround :=
+  [mkNround false 1 0 0 [mkPod 1 0 5000 true 100 400 3 true; mkPod 2 0 5001 true 0 400 3 true] [];
+   mkNround false 1 0 100 [] []].
 Example c18_nonvacuous_nodefit :
-  map fst (run_gen false ex_cfg_fit ex_nodes [ex_round_fit 100] ([], [])) = [[]]
-  /\ prop_code ex_cfg_fit ex_nodes [ex_round_fit 100] [[(1, (0, 1))]] = 10
-  /\ map fst (run_gen false ex_cfg_fit ex_nodes [[mkNround false 1 0 0 [mkPod 1 0 5000 true 100 400 3 true; mkPod 2 0 5001 true 0 400 3 true];
-                                        mkNround false 1 0 100 []]] ([], [])) = [[(1, (0, 1))]].
+  observed (run_gen true false [ex_cfg_fit] ex_nodes [ex_round_fit 100] ([], [])) = [[]]
+  /\ prop_code (tables true false [ex_cfg_fit] ex_nodes [ex_round_fit 100]) [[(1, (0, 1))]] = 10
+  /\ observed (run_gen true false [ex_cfg_fit] ex_nodes [ex_round_fit2] ([], [])) = [[(1, (0, 1))]].
 Proof. vm_compute. repeat split. Qed.
 
 (* (namespace, name) identity: a prod pod and a batch pod with the same name in two namespaces on
    node 1; only the prod pod's 40 % counts as prod usage (prod high 50 %), so the node is not
    prod-overloaded and an Evict of the prod pod is rejected (clause 5: nobody is overloaded) *)
 Definition ex_cfg_twin : cfg :=
-  mkCfg 0 false false false false false 0 0
-        [mkThr4 (-1) (-1) (-1) (-1); mkThr4 90 95 20 50; mkThr4 (-1) (-1) (-1) (-1)] [0; 1; 0].
+  mkCfg 0 false false 0 false false 0 0 [none4; mkThr4 90 95 20 50; none4] [0; 1; 0].
 Definition ex_round_twin : list nround :=
-  [mkNround false 1 0 0 [mkPod 1 0 9000 true 100 400 3 true; mkPod 1 1 5000 true 100 400 3 true];
-   mkNround false 1 0 100 []].
+  [mkNround false 1 0 0 [mkPod 1 0 9000 true 100 400 3 true; mkPod 1 1 5000 true 100 400 3 true] [];
+   mkNround false 1 0 100 [] []].
 Example c18_nonvacuous_twin :
   wf_rounds [ex_round_twin] = true
-  /\ map fst (run_gen true ex_cfg_twin ex_nodes [ex_round_twin] ([], [])) = [[]]
-  /\ prop_code ex_cfg_twin ex_nodes [ex_round_twin] [[(1, (0, 1))]] = 5.
+  /\ observed (run_gen true false [ex_cfg_twin] ex_nodes [ex_round_twin] ([], [])) = [[]]
+  /\ prop_code (tables true false [ex_cfg_twin] ex_nodes [ex_round_twin]) [[(1, (0, 1))]] = 5.
 Proof. vm_compute. repeat split. Qed.
